@@ -56,8 +56,11 @@ enum HeapViolation { HV_NONE = 0, HV_DOUBLE_FREE, HV_INVALID_FREE, HV_FORM_MISMA
 struct BlockInfo { uint64_t id; size_t size; bool array; bool sut; uint32_t run_epoch; };
 
 void heap_begin_run(HeapPolicy policy, uint8_t fill_fresh, uint8_t fill_freed);
-// releases quarantined blocks; returns number of SUT blocks of this run still live
+// releases quarantined blocks; returns the number of SUT blocks of this run that are still live and that no object with static or thread
+// storage duration refers to (directly or through another retained block): leaked, as opposed to retained until the thread / process ends
 size_t heap_end_run();
+size_t heap_last_retained_blocks();        // SUT blocks of the run just ended that are still live but referred to from static / thread storage
+size_t heap_sut_bytes_live();              // bytes in SUT blocks of any run that are live right now
 size_t heap_live_sut_blocks();             // SUT blocks allocated in the current run and still live
 bool heap_lookup(const void *p, BlockInfo *out);   // p must be the base of a live block
 bool heap_redzones_intact(char *detail, size_t n);   // guard bytes around every live SUT block of this run (plain variant)
